@@ -409,7 +409,15 @@ fn run_schedule(sc: &Value, sink: &Arc<GateSink>, reopen: bool) -> Result<(Vec<V
 			"results": obs.iter().map(|(n,o)| (n.clone(), o.result.clone())).collect::<BTreeMap<_,_>>() }));
 	}
 	// the same after close + reopen (a failed commit must not come back from the log)
-	let _ = rt.block_on(tree.close());
+	// C17: close() returns - a hang of the code under test is data, not a hung tool
+	let closed = rt.block_on(async { tokio::time::timeout(Duration::from_secs(20), tree.close()).await });
+	if closed.is_err() {
+		viol.push(json!({"kind":"close_never_returns","detail":"close() after every commit had returned did not finish within 20 s",
+			"results": obs.iter().map(|(n,o)| (n.clone(), o.result.clone())).collect::<BTreeMap<_,_>>() }));
+		std::mem::forget(tree);
+		std::mem::forget(dir);
+		return Ok((viol, drift));
+	}
 	drop(tree);
 	if reopen {
 		match TreeBuilder::with_options(opts).build() {
